@@ -1857,6 +1857,28 @@ def _fiberimage_rule(chk, prog):
                                 and any(strip_casts(k).v == 1 for k in y.kids) for y in c.walk())
                   and any(y.k == "mem" and y.field == "bytecode_length" for y in c.walk()))
     obligations.append(("next-instruction", g, "a continued frame may stop at the last instruction of its function: execution goes on with the word after the bytecode"))
+    # (5) a relaxation of (3)/(4) for a frame parked on a tail call applies to the top frame only: a tail call replaces
+    # its frame, so a lower frame at such an instruction is continued by its callee's return like any other
+    tops = set(x.name for x in fn.nodes if x.k == "vardecl" and x.kids and any(
+        y.k == "bin" and y.op == "==" and set(strip_casts(k).name for k in y.kids if strip_casts(k).k == "ref") == {"stack", "frame"}
+        for y in x.kids[0].walk()))
+    relax = [x for x in fn.nodes if x.k == "if" and any(y.k == "ref" and y.name == "JOP_TAILCALL" for y in x.kids[0].walk())
+             and any(y.k == "asg" and y.op == "=" and strip_casts(y.kids[1]).v == 0 for y in x.kids[1].walk())]
+    if relax:
+        unguarded = [x for x in relax if not any(y.k == "ref" and y.name in tops for y in x.kids[0].walk())]
+        obligations.append(("tailcall-top-only", None if unguarded else relax[0].kids[0],
+                            "the pc checks are waived for every frame parked on JOP_TAILCALL, not only for the top one: a lower frame is continued "
+                            "by its callee's return (store to stack[A], pc++) and can be made to run past the end of its bytecode"))
+    # (6) the chain of children ends: janet_continue_signal walks it with `while (child->child)`
+    walks = []
+    for x in fn.nodes:
+        if x.k in ("for", "while") and any(y.k == "mem" and y.field == "child" for y in x.walk()) \
+                and any(y.k == "bin" and y.op == "==" and any(strip_casts(k).k == "ref" and strip_casts(k).name == "fiber" for k in y.kids) for y in x.walk()) \
+                and any(c.k == "call" and c.callee in ("janet_panic", "janet_panicf") for c in x.walk()):
+            walks.append(x)
+    obligations.append(("child-acyclic", walks[0] if walks else None,
+                        "a child reference that leads back to the fiber itself is accepted: janet_continue_signal walks fiber->child to the end "
+                        "of the chain and never returns"))
     for key, g, why in obligations:
         chk.instance(rule)
         if g is not None:
